@@ -101,6 +101,17 @@ func setups() []setup {
 		s.MessageFlows = [][2]string{{"th1", "c2"}}
 		out = append(out, setup{name: "throw-wakes-catch", set: s, tasks: 2, after: map[string][]string{"t2": {"t1"}}})
 	}
+	// a second throw wakes a catch event inside the process the first throw instantiated
+	{
+		s := &drv.Set{ID: "wakeinst", Waiting: map[string]bool{"w1": true}}
+		p1 := drv.NewGraph("p1")
+		chain(p1, "s:s1", "t:t1", "th:th1", "t:t1b", "th:th2", "e:e1")
+		w := drv.NewGraph("w1")
+		chain(w, "ms:ws", "c:cw", "t:tw", "e:ew")
+		s.Procs = []*drv.Graph{p1, w}
+		s.MessageFlows = [][2]string{{"th1", "ws"}, {"th2", "cw"}}
+		out = append(out, setup{name: "throw-wakes-catch-in-instantiated", set: s, tasks: 3, after: map[string][]string{"t1b": {"t1"}, "tw": {"t1b"}}})
+	}
 	// two throws, two targets
 	{
 		s := &drv.Set{ID: "two", Waiting: map[string]bool{"w1": true}}
